@@ -75,6 +75,59 @@ Theorem C05_N_old_refuted :
 Proof. exact N_old_refuted. Qed.
 Print Assumptions C05_N_old_refuted.
 
+(* ---- Resumed reading: several iterators one after the other on ONE reader.
+   [X_take fuel k] is the reader's loop suspended at its k-th yield (what itertools.islice(it, k) leaves behind);
+   the third component is the stream the next iterator starts from; [More] = suspended after k items. *)
+
+(* V: taking the first part's records leaves exactly the image of the second part. *)
+Theorem C05_V_resume : forall (kind : N) (rs1 rs2 : list (list N)),
+  V_take (S (length (write_V (rs1 ++ rs2)))) (length rs1) kind (write_V (rs1 ++ rs2))
+  = (map (fun r => (rdw (len4 r), r)) rs1, More, write_V rs2).
+Proof. exact V_resume. Qed.
+Print Assumptions C05_V_resume.
+
+(* F, any element type. *)
+Theorem C05_F_resume : forall (A : Type) (kind : N) (lrecl : nat) (rs1 rs2 : list (list A)),
+  legal_F lrecl (rs1 ++ rs2) = true ->
+  F_take (S (length (write_F (rs1 ++ rs2)))) (length rs1) kind (Z.of_nat lrecl) (write_F (rs1 ++ rs2))
+  = (rs1, More, write_F rs2).
+Proof. exact (@F_resume). Qed.
+Print Assumptions C05_F_resume.
+
+(* VB block-wise. *)
+Theorem C05_VB_bdw_resume : forall (kind : N) (bs1 bs2 : list (list (list N))),
+  B_take (S (length (write_VB (bs1 ++ bs2)))) (length bs1) kind (write_VB (bs1 ++ bs2))
+  = (map write_block bs1, More, write_VB bs2).
+Proof. exact VB_bdw_resume. Qed.
+Print Assumptions C05_VB_bdw_resume.
+
+(* Hence EVERY sequence of passes (iterator 0 = record_iter, 1 = rdw_iter, 2 = bdw_iter; Some k = islice k,
+   None = to exhaustion), each started where the previous one stopped, delivers pass by pass what the Spec expects
+   ([expect_passes]: the next k records, rendered bare or with their length word), and no pass raises.
+   With a final full pass the concatenation is the whole record list. *)
+Theorem C05_V_passes : forall (kind : N) (ps : list pass) (rs : list (list N)) (e : list (list (list N))),
+  legal_V rs = true -> expect_passes ps rs = Some e ->
+  map items_of (run_passes (V_pass kind) ps (write_V rs)) = e
+  /\ forallb calm (run_passes (V_pass kind) ps (write_V rs)) = true.
+Proof. intros kind ps rs e _. apply V_passes_ok. Qed.
+Print Assumptions C05_V_passes.
+
+Theorem C05_F_passes : forall (kind : N) (lrecl : nat) (ps : list pass) (rs : list (list N)) (e : list (list (list N))),
+  legal_F lrecl rs = true -> (N.of_nat lrecl + 4 <= max_hdr)%N -> expect_passes ps rs = Some e ->
+  map items_of (run_passes (F_pass kind (Z.of_nat lrecl)) ps (write_F rs)) = e
+  /\ forallb calm (run_passes (F_pass kind (Z.of_nat lrecl)) ps (write_F rs)) = true.
+Proof. intros kind lrecl ps rs e HL Hh He. exact (F_passes_ok kind lrecl Hh ps rs e HL He). Qed.
+Print Assumptions C05_F_passes.
+
+(* VB: record-level passes must stop at block boundaries ([expect_passes_VB] is None otherwise: the suspended
+   iterator holds the rest of its block, which no later iterator can see); block-level passes stop anywhere. *)
+Theorem C05_VB_passes : forall (kind : N) (ps : list pass) (blocks : list (list (list N))) (e : list (list (list N))),
+  legal_VB blocks = true -> expect_passes_VB ps blocks = Some e ->
+  map items_of (run_passes (VB_pass kind) ps (write_VB blocks)) = e
+  /\ forallb calm (run_passes (VB_pass kind) ps (write_VB blocks)) = true.
+Proof. exact VB_passes_ok. Qed.
+Print Assumptions C05_VB_passes.
+
 (* The images the theorems speak about are files: when the records are bytes, every element of the legal V and VB
    images is a byte (the length words fit, i.e. struct.pack succeeds for the writer). *)
 Theorem C05_images_are_bytes :
@@ -104,3 +157,12 @@ Example C05_N_example :
   legal_N 8 [[1; 1; 1; 1; 1]; [2; 2; 2; 2; 2]; [3; 3; 3; 3; 3]] = true
   /\ legal_N (N.to_nat buffer_size) [[193; 194]; [195]]%N = true.
 Proof. split; vm_compute; reflexivity. Qed.
+
+(* header record with record_iter, next two with rdw_iter, the rest block-wise / to the end *)
+Example C05_passes_example :
+  expect_passes [(0%N, Some 1); (1%N, Some 2); (0%N, None)] [[200]; [193; 194]; []; [195]]%N
+    = Some [[[200]]; [[0; 6; 0; 0; 193; 194]; [0; 4; 0; 0]]; [[195]]]%N
+  /\ expect_passes_VB [(0%N, Some 1); (2%N, Some 1); (1%N, None)] [[[200]]; [[193]; [194]]; [[195]]]%N
+    = Some [[[200]]; [[0; 14; 0; 0; 0; 5; 0; 0; 193; 0; 5; 0; 0; 194]]; [[0; 5; 0; 0; 195]]]%N
+  /\ expect_passes_VB [(0%N, Some 1); (0%N, None)] [[[193]; [194]]]%N = None.
+Proof. repeat split; reflexivity. Qed.
